@@ -57,6 +57,11 @@ structure LB where
 def LB.init (cfg : Config) : LB :=
   { cfg := cfg, buf := [], len := cfg.capacity, pos := 0, last := 0, abs := 0, binOff := none }
 
+/-- `LineBuffer::clear` (called by `LineBufferReader::new` when the buffer gets a new reader): the
+vector keeps the length it has grown to. -/
+def LB.clear (s : LB) : LB :=
+  { s with buf := [], pos := 0, last := 0, abs := 0, binOff := none }
+
 /-- `LineBuffer::buffer`: `&self.buf[self.pos..self.last_lineterm]`. -/
 def LB.buffer (s : LB) : Bytes := (s.buf.take s.last).drop s.pos
 
